@@ -5,8 +5,8 @@ Executable model of the directory-scan path of `gensquashfs` (property C11):
                                                                    `readNames`, `nativeNode`/`nativeList`, `nativeEntry`
   lib/sqfs/src/io/dir_rec.c           recursive (DFS) iterator  → `walkNode` / `walkList` (the explicit stack of open
                                                                    directory iterators is the call stack of `walk*`)
-  lib/sqfs/src/io/dir_hl.c            hard-link filter          → `hlNext`
   lib/common/src/dir_tree_iterator.c  filters / prefix / defaults → `shouldSkip`, `applyChanges`, `treeIterStep`
+  lib/sqfs/src/io/dir_hl.c            hard-link filter (wrapped around the tree iterator) → `hlNext`
   bin/gensquashfs/src/glob.c          `scan_directory`          → `scanStep`
   lib/fstree/src/fstree.c             `insert_sorted`, `mknode`, `fstree_get_node_by_path`, `fstree_add_generic`
   lib/fstree/src/hardlink.c           `resolve_link`, `fstree_resolve_hard_links` (only as far as the scan needs it;
@@ -366,12 +366,14 @@ def nativeEntry (rel : Path) (dirDev : Nat) (name : Name) (s : Stat) : Ent :=
   { rel := rel ++ [name], path := rel ++ [name], mode := s.mode, uid := s.uid, gid := s.gid, mtime := s.mtime,
     dev := s.dev, ino := s.ino, rdev := s.rdev, mount := s.dev != dirDev, hard := false }
 
-/-- `dir_hl.c: next` — returns the entry, the link target (if detected) and the new `inumtree` -/
+/-- `dir_hl.c: next` on an entry handed out by the iterator below it — returns the entry, the link target (if
+detected) and the new `inumtree`.  `store_hard_link` remembers `ent->name`, which since /repo c5f1f00 is the name the
+tree iterator hands out (`e.path`: the glob's target prefix included). -/
 def hlNext (seen : List ((Nat × Nat) × Path)) (e : Ent) : Ent × Option Path × List ((Nat × Nat) × Path) :=
   if isDirMode e.mode then (e, none, seen)                      -- detect: NULL; store: nothing
   else match seenLookup seen (e.dev, e.ino) with
     | some tgt => ({ e with mode := inodeModeLnk ||| 0o777, hard := true }, some tgt, seen)
-    | none => (e, none, ((e.dev, e.ino), e.rel) :: seen)
+    | none => (e, none, ((e.dev, e.ino), e.path) :: seen)
 
 /-- `dir_tree_iterator.c: should_skip` -/
 def shouldSkip (cfg : Cfg) (e : Ent) : Bool :=
@@ -449,14 +451,18 @@ structure IterOut where
   hlTarget : Option Path
   seen : List ((Nat × Nat) × Path)
 
-/-- `dir_rec.c: next` (after the "."/".." test) → `dir_hl.c: next` (unless DIR_SCAN_NO_HARDLINKS) →
-`dir_tree_iterator.c: next` -/
+/-- `dir_rec.c: next` (after the "."/".." test) → `dir_tree_iterator.c: next` (filters, prefix, defaults) → `dir_hl.c: next`
+(unless DIR_SCAN_NO_HARDLINKS).  Since /repo c5f1f00 `dir_tree_iterator_create` wraps the hard-link filter *around* the tree
+iterator: hard links are detected on the entries that survive the type/name filters, under their prefixed names. -/
 def iterStep (cfg : Cfg) (fnm : Fnm) (rel : Path) (dirDev : Nat) (seen : List ((Nat × Nat) × Path)) (name : Name)
     (s : Stat) : IterOut :=
   let e0 := nativeEntry rel dirDev name s
-  let hl := if hasFlag cfg.flags dirScanNoHardlinks then (e0, none, seen) else hlNext seen e0
-  let ti := treeIterStep cfg fnm hl.1
-  { out := ti.1, recurse := ti.2, hlTarget := hl.2.1, seen := hl.2.2 }
+  let ti := treeIterStep cfg fnm e0
+  match ti.1 with
+  | none => { out := none, recurse := ti.2, hlTarget := none, seen := seen }
+  | some e1 =>
+    let hl := if hasFlag cfg.flags dirScanNoHardlinks then (e1, none, seen) else hlNext seen e1
+    { out := some hl.1, recurse := ti.2, hlTarget := hl.2.1, seen := hl.2.2 }
 
 mutual
 /-- one entry of the directory being read by the native iterator at the top of `dir_rec.c`'s stack, pushed through
@@ -689,6 +695,12 @@ def globInto (sorted : Bool) (d : Defaults) (cfg : Cfg) (fnm : Fnm) (rootDev : N
     match lookup t1 target with
     | none => none /- ENOENT -/
     | some r => if !r.isDir then none /- ENOTDIR -/ else scanInto sorted d cfg fnm rootDev forest t1 links
+
+/-- mkfs.c `main`: `--set-uid` / `--set-gid` / `--all-root` (DIR_SCAN_KEEP_UID / _GID cleared) replace the default owner, i.e.
+the owner of the root inode and of implicitly created directories (/repo 94d8bc2) -/
+def mainDefaults (d : Defaults) (dirscanFlags forceUid forceGid : Nat) : Defaults :=
+  { d with uid := if hasFlag dirscanFlags dirScanKeepUid then d.uid else forceUid,
+           gid := if hasFlag dirscanFlags dirScanKeepGid then d.gid else forceGid }
 
 /-- `gensquashfs --pack-dir`: scan + post-process -/
 def packDir (sorted : Bool) (d : Defaults) (cfg : Cfg) (fnm : Fnm) (rootDev : Nat) (forest : List HNode) :
